@@ -794,6 +794,12 @@ func (x *Explorer) eval(st *State, v ssa.Value, depth int) Abs {
 					if k, ok := st.ints[x.Canon(v.Y)]; ok {
 						r = absOf(k == c)
 					}
+				} else if nilable(v.X.Type()) {
+					// identity: both sides are the content of the same package-level sentinel (err == errFoo, where the
+					// path assigned err = errFoo), and the function never assigns that sentinel
+					if g := x.sentinelOf(st, v.X); g != nil && g == x.sentinelOf(st, v.Y) {
+						r = True
+					}
 				}
 			}
 			if r == Unknown {
@@ -840,6 +846,29 @@ func (x *Explorer) intOf(st *State, v ssa.Value) (int64, bool) {
 	}
 	k, ok := st.ints[x.Canon(v)]
 	return k, ok
+}
+
+// sentinelOf: v is (on this path) the value loaded from a package-level
+// variable that this function does not assign.
+func (x *Explorer) sentinelOf(st *State, v ssa.Value) *ssa.Global {
+	for i := 0; i < 8; i++ {
+		v = stripConv(v)
+		if u, ok := v.(*ssa.UnOp); ok && u.Op == token.MUL {
+			if g, ok := u.X.(*ssa.Global); ok && !x.storedGlobal[g] {
+				return g
+			}
+		}
+		k, ok := st.ali[x.Canon(v)]
+		if !ok {
+			return nil
+		}
+		nv := x.byKey[k]
+		if nv == nil {
+			return nil
+		}
+		v = nv
+	}
+	return nil
 }
 
 // SetFact records knowledge about v (bool value or nil-ness).
